@@ -36,7 +36,7 @@ func monC05(c *runCtx) {
 		c.res.Notes = append(c.res.Notes, "no goit binary given: C05 in-process part skipped")
 		return
 	}
-	n := c.pick(2000, 60000) / c.of
+	n := c.pick(4000, 60000) / c.of
 	specials := []byte{0x00, 0x20, 0x0a}
 	for i := 0; i < n; i++ {
 		w := filepath.Join(c.work, "r")
